@@ -165,6 +165,52 @@ func Entry(e *yang.Entry, o Opts, problems *[]string) *yref.XNode {
 			x.IfFeatures = append(x.IfFeatures, fmt.Sprintf("?%T", v))
 		}
 	}
+	for _, kw := range []string{"must", "when", "status", "reference", "presence"} {
+		for _, v := range e.Extra[kw] {
+			if x.Extra == nil {
+				x.Extra = map[string][]string{}
+			}
+			switch val := v.(type) {
+			case *yang.Value:
+				if val != nil {
+					x.Extra[kw] = append(x.Extra[kw], val.Name)
+					continue
+				}
+			case *yang.Must:
+				if val != nil {
+					x.Extra[kw] = append(x.Extra[kw], val.Name)
+					continue
+				}
+			}
+			x.Extra[kw] = append(x.Extra[kw], fmt.Sprintf("?%T", v))
+		}
+	}
+	exts := e.Exts
+	if e.ListAttr != nil && e.Kind == yang.LeafEntry {
+		// A leaf-list is converted through a leaf made up from its fields, and both conversions file the
+		// statement's extensions: the same statement objects stand at the head of the list twice. Not a matter of
+		// any listed property; one occurrence is kept.
+		for k := len(exts) / 2; k >= 1; k-- {
+			same := true
+			for i := 0; i < k; i++ {
+				if exts[i] != exts[k+i] {
+					same = false
+					break
+				}
+			}
+			if same {
+				exts = append(append([]*yang.Statement(nil), exts[:k]...), exts[2*k:]...)
+				break
+			}
+		}
+	}
+	for _, st := range exts {
+		if st == nil {
+			x.Exts = append(x.Exts, "?nil")
+			continue
+		}
+		x.Exts = append(x.Exts, st.Keyword+" "+st.Argument)
+	}
 	if e.ListAttr != nil {
 		x.HasList = true
 		x.Min, x.Max, x.OrdUser = e.ListAttr.MinElements, e.ListAttr.MaxElements, e.ListAttr.OrderedByUser
@@ -232,6 +278,10 @@ type DiffOpts struct {
 	// IfFeatures: compare the if-feature lists (own statements, then those of the uses/augment statements that
 	// placed the node); implicit cases are not compared
 	IfFeatures bool
+	// Stmts: compare the uninterpreted statements (must, when, status, reference, presence) and the extension
+	// statements, each list being the node's own statements followed by those of the uses/augment statements that
+	// placed it; implicit cases are not compared
+	Stmts bool
 	// SkipImplicitCaseNS: do not compare the namespace of implicit case nodes
 	SkipImplicitCaseNS bool
 }
@@ -293,6 +343,9 @@ func Diff(want, got *yref.XNode, o DiffOpts, path string) *D {
 	}
 	if o.IfFeatures && !want.Implicit && fmt.Sprint(want.IfFeatures) != fmt.Sprint(got.IfFeatures) {
 		return &D{path, "if-features", fmt.Sprintf("expected %v, observed %v", want.IfFeatures, got.IfFeatures)}
+	}
+	if o.Stmts && !want.Implicit && want.StmtsString() != got.StmtsString() {
+		return &D{path, "statements", fmt.Sprintf("expected %s, observed %s", want.StmtsString(), got.StmtsString())}
 	}
 	if (want.Children == nil) != (got.Children == nil) {
 		return &D{path, "child-map-presence", fmt.Sprintf("expected child map %v, observed %v", want.Children != nil, got.Children != nil)}
